@@ -734,7 +734,8 @@ static int rtr_handle_cache_response_pdu(struct rtr_socket *rtr_socket, char *pd
 		if (rtr_socket->last_update != 0) {
 			RTR_DBG1("Resetting Socket.");
 
-			rtr_socket->last_update = 0;
+			// keep last_update: the old records stay in place until the reload
+			// succeeds and must still expire if it never does
 			rtr_socket->is_resetting = true;
 		}
 		rtr_socket->session_id = cr_pdu->session_id;
